@@ -23,13 +23,13 @@ Proof.
   cbn [app scan]. destruct (ws_plain c Hc) as [-> ->]. rewrite Hc. now apply IH.
 Qed.
 
-Lemma scan_quoted q s acc eb rest : existsb (Nat.eqb q) s = false ->
+Lemma scan_quoted q s acc eb rest : existsb (Nat.eqb q) s = false -> existsb (Nat.eqb 10) s = false ->
   scan (EQuote q) acc true eb (s ++ q :: rest) = scan ENone (acc ++ s) true false rest.
 Proof.
-  revert acc eb. induction s as [|c s IH]; intros acc eb H.
+  revert acc eb. induction s as [|c s IH]; intros acc eb H Hn.
   - cbn [app scan]. rewrite Nat.eqb_refl, app_nil_r. reflexivity.
-  - cbn [existsb] in H. apply orb_false_iff in H as [Hc Hs].
-    cbn [app scan]. rewrite Nat.eqb_sym, Hc. rewrite IH by assumption.
+  - cbn [existsb] in H, Hn. apply orb_false_iff in H as [Hc Hs]. apply orb_false_iff in Hn as [Hc2 Hs2].
+    cbn [app scan]. rewrite Nat.eqb_sym, Hc. rewrite Nat.eqb_sym, Hc2. rewrite IH by assumption.
     now rewrite <- app_assoc.
 Qed.
 
@@ -39,7 +39,7 @@ Proof.
   destruct p as [c|q s|c]; cbn [piece_ok render_piece value_piece]; intros H.
   - apply andb_true_iff in H as [H H3]. apply andb_true_iff in H as [H1 H2].
     apply negb_true_iff in H1, H2, H3. cbn [app scan]. now rewrite H2, H3, H1.
-  - apply andb_true_iff in H as [H1 H2]. apply negb_true_iff in H2.
+  - apply andb_true_iff in H as [H H3]. apply andb_true_iff in H as [H1 H2]. apply negb_true_iff in H2, H3.
     cbn [app scan]. rewrite H1. rewrite <- app_assoc. cbn [app]. now apply scan_quoted.
   - cbn [app scan]. assert (Hq : is_quote 92 = false) by reflexivity. rewrite Hq.
     rewrite Nat.eqb_refl. reflexivity.
@@ -129,19 +129,37 @@ Proof. intros Hl Hok Hf. rewrite flat_all_lead by assumption. now apply flat_all
 
 (* an unterminated quote is an error, wherever it starts *)
 Lemma scan_open_quote q s acc : existsb (Nat.eqb q) s = false ->
-  forall eb, exists acc' eb', scan (EQuote q) acc true eb s = NeedMore (EQuote q) acc' true eb'.
+  forall eb, scan (EQuote q) acc true eb s = Fail \/ exists acc' eb', scan (EQuote q) acc true eb s = NeedMore (EQuote q) acc' true eb'.
 Proof.
-  revert acc. induction s as [|c s IH]; intros acc H eb; [eexists _, _; reflexivity|].
+  revert acc. induction s as [|c s IH]; intros acc H eb; [right; eexists _, _; reflexivity|].
   cbn [existsb] in H. apply orb_false_iff in H as [Hc Hs]. cbn [scan].
-  rewrite Nat.eqb_sym, Hc. now apply IH.
+  rewrite Nat.eqb_sym, Hc. destruct (c =? 10); [left; reflexivity|]. now apply IH.
+Qed.
+
+(* a quoted string does not run over the end of its line: the newline is where the error is, whatever follows *)
+Lemma scan_quote_newline q s acc rest : is_quote q = true -> existsb (Nat.eqb q) s = false ->
+  forall eb, scan (EQuote q) acc true eb (s ++ 10 :: rest) = Fail.
+Proof.
+  intros Hq. revert acc. induction s as [|c s IH]; intros acc H eb.
+  - cbn [app scan]. assert (Hne : (10 =? q) = false).
+    { unfold is_quote in Hq. apply orb_true_iff in Hq as [Hq|Hq]; apply Nat.eqb_eq in Hq; subst; reflexivity. }
+    rewrite Hne. reflexivity.
+  - cbn [existsb] in H. apply orb_false_iff in H as [Hc Hs]. cbn [app scan].
+    rewrite Nat.eqb_sym, Hc. destruct (c =? 10); [reflexivity|]. now apply IH.
 Qed.
 
 Lemma flat_next_open_quote w q s : forallb piece_ok w = true -> is_quote q = true ->
   existsb (Nat.eqb q) s = false -> flat_next (render_word w ++ q :: s) = Err.
 Proof.
   intros Hw Hq Hs. unfold flat_next. rewrite scan_word by assumption.
-  cbn [scan]. rewrite Hq. destruct (scan_open_quote q s (([] ++ value_word w)) Hs false) as (acc' & eb' & ->).
-  reflexivity.
+  cbn [scan]. rewrite Hq. destruct (scan_open_quote q s (([] ++ value_word w)) Hs false) as [->|(acc' & eb' & ->)]; reflexivity.
+Qed.
+
+Lemma flat_next_quote_newline w q s rest : forallb piece_ok w = true -> is_quote q = true ->
+  existsb (Nat.eqb q) s = false -> flat_next (render_word w ++ q :: s ++ 10 :: rest) = Err.
+Proof.
+  intros Hw Hq Hs. unfold flat_next. rewrite scan_word by assumption.
+  cbn [scan]. rewrite Hq. rewrite scan_quote_newline by assumption. reflexivity.
 Qed.
 
 Theorem flat_all_unterminated : forall l fuel w q s, items_ok l = true ->
@@ -152,6 +170,30 @@ Proof.
   induction l as [|[w0 s0] l IH]; intros fuel w q s Hok Hne Hw Hq Hs.
   - destruct fuel; [reflexivity|]. cbn [render_items map concat app flat_all].
     now rewrite flat_next_open_quote.
+  - inversion Hne as [|? ? Hs0 Hne']; subst. cbn [snd] in Hs0.
+    destruct fuel as [|f]; [reflexivity|].
+    assert (Hws : good_word w0 = true /\ all_ws s0 = true /\ items_ok l = true).
+    { destruct l as [|it l'].
+      - cbn [items_ok] in Hok. apply andb_true_iff in Hok as [? ?]. auto.
+      - change (items_ok ((w0, s0) :: it :: l')) with
+          (good_word w0 && all_ws s0 && nonempty s0 && items_ok (it :: l')) in Hok.
+        apply andb_true_iff in Hok as [Hok Hl]. apply andb_true_iff in Hok as [Hok _].
+        apply andb_true_iff in Hok as [? ?]. auto. }
+    destruct Hws as (Hw0 & Hsw & Hl).
+    unfold render_items. cbn [map concat fst snd]. rewrite <- !app_assoc.
+    cbn [flat_all]. rewrite flat_next_word by assumption.
+    fold (render_items l). rewrite flat_all_lead by (now apply all_ws_tl).
+    now rewrite IH.
+Qed.
+
+Theorem flat_all_quote_over_newline : forall l fuel w q s rest, items_ok l = true ->
+  Forall (fun it => nonempty (snd it) = true) l ->
+  forallb piece_ok w = true -> is_quote q = true -> existsb (Nat.eqb q) s = false ->
+  flat_all fuel (render_items l ++ render_word w ++ q :: s ++ 10 :: rest) = Err.
+Proof.
+  induction l as [|[w0 s0] l IH]; intros fuel w q s rest Hok Hne Hw Hq Hs.
+  - destruct fuel; [reflexivity|]. cbn [render_items map concat app flat_all].
+    now rewrite flat_next_quote_newline.
   - inversion Hne as [|? ? Hs0 Hne']; subst. cbn [snd] in Hs0.
     destruct fuel as [|f]; [reflexivity|].
     assert (Hws : good_word w0 = true /\ all_ws s0 = true /\ items_ok l = true).
@@ -300,6 +342,17 @@ Proof.
   intros. unfold ws_read. rewrite chunk_independent. cbn [app].
   match goal with E : concat chunks = _ |- _ => rewrite E end.
   now apply flat_all_unterminated.
+Qed.
+
+Theorem ws_read_quote_over_newline chunks l w q s rest :
+  items_ok l = true -> Forall (fun it => nonempty (snd it) = true) l ->
+  forallb piece_ok w = true -> is_quote q = true -> existsb (Nat.eqb q) s = false ->
+  concat chunks = render_items l ++ render_word w ++ q :: s ++ 10 :: rest ->
+  ws_read chunks = Err.
+Proof.
+  intros. unfold ws_read. rewrite chunk_independent. cbn [app].
+  match goal with E : concat chunks = _ |- _ => rewrite E end.
+  now apply flat_all_quote_over_newline.
 Qed.
 
 Theorem ws_read_trailing_backslash chunks l :
